@@ -138,6 +138,11 @@ pub struct RenderLoop {
     pub stall: (u8, u8),
     /// outside the stall: number of queued frames the terminal accepts per poll (cyclic)
     pub deliver: Vec<u8>,
+    /// polls that report a `Resize` event carrying the unchanged size (the window was resized
+    /// and resized back, or only its pixel size changed): the loop answers with `clear()` and a
+    /// new renderer, the screen content itself is untouched
+    #[serde(default)]
+    pub resize_polls: Vec<u8>,
 }
 
 // ---- reference screen -------------------------------------------------------------------
@@ -687,6 +692,8 @@ struct LoopTerm {
     max_pending: usize,
     stall: (usize, usize),
     deliver: Vec<u8>,
+    resize_polls: Vec<u8>,
+    resizes: usize,
 }
 
 impl LoopTerm {
@@ -731,7 +738,12 @@ impl Terminal for LoopTerm {
             let n = if self.deliver.is_empty() { 1 } else { self.deliver[self.polls % self.deliver.len()] as usize };
             self.accept(n);
         }
+        let resize = self.resize_polls.iter().any(|p| *p as usize == self.polls);
         self.polls += 1;
+        if resize {
+            self.resizes += 1;
+            return Ok(Some(surf_n_term::TerminalEvent::Resize(self.size)));
+        }
         Ok(None)
     }
     fn dyn_ref(&mut self) -> &mut dyn Terminal {
@@ -772,6 +784,8 @@ fn run_loop_case(h: usize, w: usize, rl: &RenderLoop) -> Outcome {
         max_pending: 0,
         stall: (rl.stall.0 as usize, rl.stall.1 as usize),
         deliver: rl.deliver.clone(),
+        resize_polls: rl.resize_polls.clone(),
+        resizes: 0,
     };
     let n = rl.frames.len();
     let skip: BTreeSet<usize> = if n == 0 { BTreeSet::new() } else { rl.no_frame.iter().map(|i| *i as usize % n).collect() };
@@ -825,6 +839,11 @@ fn run_loop_case(h: usize, w: usize, rl: &RenderLoop) -> Outcome {
         if let Some((sig, msg)) = screen.problems.first() {
             return Err(Fail::new(sig.clone(), format!("render loop, frame of invocation {tag}: {msg}; commands {:?}", cmds)));
         }
+        // a Resize event handled by an invocation that asks for no frame: the loop's clear()
+        // may erase images, nothing else is rendered and nothing is claimed about the screen
+        if matches!(drawn.get(*tag), Some(None)) && cmds.iter().all(|c| matches!(c, TerminalCommand::ImageErase(..))) {
+            continue;
+        }
         let Some(Some(snap)) = drawn.get(*tag) else {
             return Err(Fail::new(
                 "loop/frame-without-drawing",
@@ -860,6 +879,7 @@ fn run_loop_case(h: usize, w: usize, rl: &RenderLoop) -> Outcome {
     let mut pass = Pass::new(dropped && labels.contains("loop:frame-delivered-after-a-drop"))
         .label("render-loop")
         .label_if(dropped, "loop:frames-dropped")
+        .label_if(term.resizes > 0, "loop:resize-events")
         .label_if(!skip.is_empty(), "loop:no-frame-invocations")
         .label_if(frames >= 2, "frames>=2");
     for l in labels {
@@ -930,12 +950,13 @@ impl Property for C01 {
             proptest::collection::vec(any::<u8>(), 0..3),
             (0u8..20, 0u8..60),
             proptest::collection::vec(0u8..4, 0..4),
+            prop_oneof![1 => Just(Vec::new()), 1 => proptest::collection::vec(0u8..40, 1..4)],
         )
-            .prop_map(|(height, width, frames, no_frame, stall, deliver)| Case {
+            .prop_map(|(height, width, frames, no_frame, stall, deliver, resize_polls)| Case {
                 height,
                 width,
                 ops: Vec::new(),
-                render_loop: Some(RenderLoop { frames, no_frame, stall, deliver }),
+                render_loop: Some(RenderLoop { frames, no_frame, stall, deliver, resize_polls }),
             });
         prop_oneof![12 => direct, 1 => looped].boxed()
     }
@@ -949,7 +970,7 @@ impl Property for C01 {
     }
 
     fn rule(&self) -> String {
-        "terminal 1..7 x 1..11 cells (thorough up to 9x40), cell = 4x2 pixels; history of 1-12 ops (thorough 30): Paint (0-9 cells: narrow chars from {' ',a,b,c,d}, wide chars 世/🤩, 7 pool images reused by Arc (1x1/2x2/1x3 cells, plus four equal-sized windows at different offsets into one backing picture), 2 glyphs; 5 pool faces; positions absolute or right-neighbour / same cell / below the previous put, plus runs of equal coloured blanks), Repaint (previous frame's cells again), Frame (delivered + checked), NoFrame, Clear, Dropped (1-2 frames rendered but never delivered, then the mandatory clear()), Recreate (clear(), screen scrambled, possibly resized, new renderer with clear=true). One case in 13 instead drives the library's own render loop (Terminal::run_render) on a terminal whose output queue is scripted: 1-59 handler invocations painting 0-3 cells each (some answering WaitNoFrame), the terminal accepting 0-3 queued frames per poll and nothing at all during a stall of 0-59 polls, so that the loop's frame dropping (more than 32 frames pending: frames_drop + clear()) takes place; every frame that reaches the screen is checked, and the frame of the last invocation must be among them. After every delivered frame the reference screen's display must equal (1) the display the surface denotes and (2) the display a brand-new renderer produces for the same surface on a blank screen. non-trivial = >=2 delivered frames, the later differing from the earlier, and one of: wide char in both, image kept/moved/removed, blank run >=5, forced clear on a non-blank screen, dropped frames, re-creation; render-loop cases: a frame delivered after the loop dropped frames".into()
+        "terminal 1..7 x 1..11 cells (thorough up to 9x40), cell = 4x2 pixels; history of 1-12 ops (thorough 30): Paint (0-9 cells: narrow chars from {' ',a,b,c,d}, wide chars 世/🤩, 7 pool images reused by Arc (1x1/2x2/1x3 cells, plus four equal-sized windows at different offsets into one backing picture), 2 glyphs; 5 pool faces; positions absolute or right-neighbour / same cell / below the previous put, plus runs of equal coloured blanks), Repaint (previous frame's cells again), Frame (delivered + checked), NoFrame, Clear, Dropped (1-2 frames rendered but never delivered, then the mandatory clear()), Recreate (clear(), screen scrambled, possibly resized, new renderer with clear=true). One case in 13 instead drives the library's own render loop (Terminal::run_render) on a terminal whose output queue is scripted: 1-59 handler invocations painting 0-3 cells each (some answering WaitNoFrame), the terminal accepting 0-3 queued frames per poll and nothing at all during a stall of 0-59 polls, so that the loop's frame dropping (more than 32 frames pending: frames_drop + clear()) takes place, and in half of these cases 1-3 polls reporting a Resize event with the unchanged size (the loop answers with clear() and a new renderer); every frame that reaches the screen is checked, and the frame of the last invocation must be among them. After every delivered frame the reference screen's display must equal (1) the display the surface denotes and (2) the display a brand-new renderer produces for the same surface on a blank screen. non-trivial = >=2 delivered frames, the later differing from the earlier, and one of: wide char in both, image kept/moved/removed, blank run >=5, forced clear on a non-blank screen, dropped frames, re-creation; render-loop cases: a frame delivered after the loop dropped frames".into()
     }
 
     fn assumptions(&self) -> Vec<String> {
